@@ -146,3 +146,55 @@ PROPS["C08"] = dict(
     + [dict(bin="c08", args=["--only", "notify"], timeout=120, name="c08-notify")],
     min_evaluations={"quick": 500, "thorough": 5000},
 )
+
+PROPS["C12"] = dict(
+    title="SUB delivers exactly the messages its current subscriptions match",
+    rule="(model) random subscribe/unsubscribe histories (1..30 ops, topics of length 0..4 over {00,'a','b',ff}) on the real SubscriptionTrie; "
+         "after EVERY op matches() is compared with a reference multiset on the exhaustive probe set (all 341 strings of length <=4 over the "
+         "alphabet), get_all_topics and unsubscribe's return value too. (race) 3 matcher threads vs a mutator that never subscribes the probed "
+         "family (it only unsubscribes never-subscribed topics and churns others) with the delay point inside unsubscribe's underflow window: "
+         "matches() on that family must be false at every instant. (e2e) PUB->1..3 SUB over tcp/inproc/ipc, subscription changes only at "
+         "quiescent points delimited by an always-subscribed sentinel, multipart filtered on frame 0 only: received == published filtered by the "
+         "reference. (stall) PUB with SNDHWM=4 and 64 KiB messages while raw subscribers handshake and then stop reading / vanish: every "
+         "send() returns within 1 s and the reading subscriber gets everything in order. distinct = histories / (transport, round, subscriber).",
+    assumptions=["'when the message reaches it' is made unambiguous by changing subscriptions only between sentinel-delimited bursts",
+                 "publisher promptness bound: 1 s per send (the defective path blocks 30 s)"],
+    shards=lambda tier, seed: sharded("c12", _n(tier, 4, 8), _n(tier, 300, 1200))
+    + [dict(bin="c12", args=["--only", "race"], timeout=300, name="c12-race")]
+    + sharded("c12", _n(tier, 3, 6), 600, extra=["--only", "e2e"], name="c12-e2e")
+    + sharded("c12", 3, 300, extra=["--only", "stall"], name="c12-stall"),
+    min_evaluations={"quick": 10000, "thorough": 100000},
+)
+
+PROPS["C13"] = dict(
+    title="PUSH/DEALER give each message to exactly one ready peer, fairly",
+    rule="(model, paused clock - this layer performs no I/O) the real LoadBalancer/OutgoingMessageOrchestrator driven through the facade with "
+         "scripted connections (switchable full flag, blocking timeout, acceptance log): fairness histories (1..5 always-ready peers x 1..4 "
+         "sender tasks x sync/async path: per-peer counts differ by <= 1 + extra sender tasks), readiness patterns (every peer full at sweep "
+         "time, one frees after 1..5 ms, one never: the send must complete when the first peer frees, not at the blocked-on peer's timeout), "
+         "churn histories (add/remove/toggle-full/send with one always-ready member: exactly-once, removed peers get nothing, no starvation "
+         "within 2n sends). The first-peer waiter race is decided under C08. (e2e) real PUSH (SNDHWM 8) -> 1..4 PULLs over tcp, optionally "
+         "with a raw peer that handshakes and never reads: exactly-once over the readers, no send slower than 1.5 s. distinct = case parameters.",
+    assumptions=["property-level invariants, not an exact cursor model: unequal shares among partially ready peers are legitimate",
+                 "the paused tokio clock is legitimate here because LoadBalancer/Orchestrator do no I/O"],
+    shards=lambda tier, seed: sharded("c13", _n(tier, 4, 8), _n(tier, 300, 1200))
+    + sharded("c13", 4, 300, extra=["--only", "e2e"], name="c13-e2e"),
+    min_evaluations={"quick": 1000, "thorough": 10000},
+)
+
+PROPS["C01"] = dict(
+    title="While connected: every accepted message arrives exactly once, in order, intact",
+    rule="many short histories: pair in {PUSH->PULL, DEALER->ROUTER, ROUTER(mandatory)->DEALER, REQ<->REP, DEALER<->DEALER, DEALER->REP} x "
+         "transport {tcp, ipc, inproc} x SNDHWM/RCVHWM {1,2,3,8,256} x SNDBATCH_COUNT {1,2,8,default} x SNDBATCH_BYTES {64,1Ki,64Ki,default} x "
+         "RCVBATCH_* x throttle x TCP_CORK x runtime {current-thread, 4 workers} x first send {before connect(), right after connect(), after "
+         "the handshake} x receiver pacing {greedy, 1 ms/msg, stall-burst, starts when the sender blocks} x size family (small, big-among-small, "
+         "count limit, logical byte limit, physical byte limit, HWM 1, mixed multipart with empty frames, header boundaries, up to 1 MiB). "
+         "Payloads are self-describing (sender, seq, frame idx/count, length, checksum, keyed body); the oracle over the boundary log checks "
+         "exactly-once, per-sender order and byte-exact integrity; loss = accepted id still missing after 6 s without progress while the monitor "
+         "showed no disconnect (disconnected scenarios are discarded and counted). distinct = (config, seed) with >= 5 accepted messages.",
+    assumptions=["'accepted' means send() returned Ok; a failed/cancelled send stays open (may or may not arrive)",
+                 "loss is bounded progress: 6 s without any delivery after the sender stopped"],
+    shards=lambda tier, seed: sharded("c01", _n(tier, 14, 16), _n(tier, 300, 1500)),
+    max_parallel=14,
+    min_evaluations={"quick": 100, "thorough": 1000},
+)
